@@ -45,7 +45,7 @@ if APPEND and os.path.exists("/verif/oracle/c10_pyspark.jsonl"):
         r = json.loads(line)
         done.add(json.dumps([r["names"], r["ops"]], ensure_ascii=False))
 progs = list(c10.CORPUS)
-for seed in ((1012, 1013) if APPEND else (1010, 1011)):
+for seed in ((2000 + len(done), 3000 + len(done)) if APPEND else (1010, 1011)):      # every --append run draws fresh programs
     g = c10.Gen(random.Random(seed))
     progs += [g.program(4) for _ in range(N // 2)]
 progs = [p for p in progs if json.dumps([p["names"], json.loads(json.dumps(p["ops"]))], ensure_ascii=False) not in done]
